@@ -614,3 +614,76 @@ def c32(tier):
         TT("agg_%s_tp" % op, agg(op, keep("DS_M", ["Me_1"])), 2)
         TT("agg_%s_tp_group" % op, agg(op, keep("DS_M", ["Me_1"]), "group by", ["Id_1"]), 2)
     return out
+
+
+# ------------------------------------------------------------------------------------------ C09 cast
+def c09(tier):
+    """numeric / boolean / string-rendering conversions at dataset and component level; Integer inputs over the whole int64 range"""
+    out = []
+    n = 2 if tier == "quick" else 3
+    O = {"int64": True}
+    SRC = {"Integer": "DS_6", "Number": "DS_N", "Boolean": "DS_B"}
+    COMP = {"Integer": "Me_1", "Number": "Me_2", "Boolean": "Me_3"}
+    for st, ds in SRC.items():
+        for tgt in ("integer", "number", "boolean", "string"):
+            out.append(T("ds_%s_%s" % (st.lower(), tgt), cast(ds, tgt), n, opts=dict(O)))
+            out.append(T("comp_%s_%s" % (st.lower(), tgt), calc("DS_X", [("measure", "Me_9", cast(COMP[st], tgt))]), n, opts=dict(O)))
+    # compositions: a conversion feeding another operator / another conversion
+    out.append(T("int_num_int", cast(cast("DS_6", "number"), "integer"), n, opts=dict(O)))
+    out.append(T("num_int_num", cast(cast("DS_N", "integer"), "number"), n, opts=dict(O)))
+    out.append(T("bool_int_bool", cast(cast("DS_B", "integer"), "boolean"), n, opts=dict(O)))
+    out.append(T("int_bool_int", cast(cast("DS_6", "boolean"), "integer"), n, opts=dict(O)))
+    out.append(T("cast_then_eq", binop("=", cast("DS_6", "integer"), "DS_6"), n, opts=dict(O)))
+    out.append(T("cast_num_plus", binop("+", cast("DS_6", "number"), "DS_N"), n))
+    out.append(T("filter_on_cast", filter_("DS_X", cast("Me_1", "boolean")), n, opts=dict(O)))
+    out.append(T("calc_cast_overwrite", calc("DS_X", [("measure", "Me_1", cast("Me_2", "integer"))]), n, opts=dict(O)))
+    out.append(T("calc_two_casts", calc("DS_X", [("measure", "Me_8", cast("Me_1", "number")), ("measure", "Me_9", cast("Me_3", "integer"))]), n, opts=dict(O)))
+    out.append(T("cast_in_if", calc("DS_X", [("measure", "Me_9", if_(cast("Me_1", "boolean"), cast("Me_2", "integer"), "Me_1"))]), n, opts=dict(O)))
+    out.append(T("cast_membership", cast(member("DS_1", "Me_2"), "integer"), n, opts=dict(O)))
+    out.append(T("cast_after_keep", cast(keep("DS_1", ["Me_1"]), "boolean"), n, opts=dict(O)))
+    out.append(T("cast_ident_preserved", cast(keep("DS_7", ["Me_1"]), "number"), n, opts=dict(O)))
+    # ---- conversions between the time types (calendar theory; Time = interval of two days)
+    yrs = (2015, 2026) if tier == "quick" else (1900, 2100)
+
+    def TT(tid, expr, nrows=1, inds=None, **kw):
+        for ind in (inds or [None]):
+            d = dict(id=tid + ("_" + ind if ind else ""), ast=start(assign("DS_r", expr)), structs=CAST_TIME_STRUCTS, nrows=nrows, evaluator="time",
+                     timeout_ms=60000 if tier == "quick" else 400000, samples=4, opts={"years": yrs})
+            if ind:
+                d["opts"]["ind"] = ind
+            d.update(kw)
+            out.append(d)
+    CV = lambda items: calc("DS_V", [("measure", n_, e) for n_, e in items])  # noqa: E731
+    INDS = ["A", "S", "Q", "M", "W", "D"]
+    TT("ds_date_tp", cast("DS_VD", "time_period"), 2)
+    TT("comp_date_tp", CV([("Me_9", cast("Me_3", "time_period"))]))
+    TT("ds_tp_date", cast("DS_VP", "date"), 2, INDS)
+    TT("comp_tp_date", CV([("Me_9", cast("Me_2", "date"))]), 1, INDS)
+    TT("ds_time_date", cast("DS_VT", "date"), 2)
+    TT("comp_time_date", CV([("Me_9", cast("Me_1", "date"))]))
+    # Time -> Time_Period: one shard per shape of the interval (a whole period of one indicator; X* = no period at all)
+    classes = ["D", "A", "S", "Q", "M", "W"] + ([] if tier == "quick" else ["X1", "X2", "X3"])
+    for k in classes:
+        hard = k in ("W", "X1", "X2", "X3")
+        o = {"years": (2019, 2022) if hard and tier == "quick" else ((2000, 2030) if hard else yrs), "iv_class": k}
+        kw = dict(opts=o, timeout_ms=(100000 if tier == "quick" else 900000) if hard else (60000 if tier == "quick" else 400000))
+        TT("ds_time_tp_iv%s" % k, cast("DS_VT", "time_period"), 1, **kw)
+        TT("comp_time_tp_iv%s" % k, CV([("Me_9", cast("Me_1", "time_period"))]), **kw)
+        TT("time_tp_pi_iv%s" % k, CV([("Me_9", unop("period_indicator", cast("Me_1", "time_period")))]), **kw)
+        if not k.startswith("X"):
+            kw2 = dict(kw, opts=dict(o, ind=k))
+            TT("comp_time_tp_eq_iv%s" % k, CV([("Me_9", binop("=", cast("Me_1", "time_period"), "Me_2"))]), **kw2)
+    TT("comp_date_tp_eq", CV([("Me_9", binop("=", cast("Me_3", "time_period"), "Me_2"))]), 1, ["D"])
+    TT("comp_tp_date_eq", CV([("Me_9", binop("=", cast("Me_2", "date"), "Me_3"))]), 1, ["D"])
+    TT("date_tp_date", cast(cast("DS_VD", "time_period"), "date"), 1)
+    for t_, ds_ in (("date", "DS_VD"), ("time_period", "DS_VP"), ("time", "DS_VT")):
+        TT("ds_%s_same" % t_, cast(ds_, t_), 2)
+    return out
+
+
+CAST_TIME_STRUCTS = [
+    structure("DS_V", [("Id_1", "Integer", I, False), ("Me_1", "Time", M, True), ("Me_2", "Time_Period", M, True), ("Me_3", "Date", M, True)]),
+    structure("DS_VT", [("Id_1", "Integer", I, False), ("Me_1", "Time", M, True)]),
+    structure("DS_VP", [("Id_1", "Integer", I, False), ("Me_1", "Time_Period", M, True)]),
+    structure("DS_VD", [("Id_1", "Integer", I, False), ("Me_1", "Date", M, True)]),
+]
